@@ -2,6 +2,7 @@
 mod c03;
 mod c05n;
 mod c07;
+mod c18;
 mod c08;
 mod c09;
 mod c10;
@@ -140,6 +141,10 @@ fn main() {
         "c07" => {
             let o = c07::generate(seed, scale);
             o.write(&out, "c07", "From MLV Require Import model.Bytes model.Id model.Node model.Check11 model.IterQuery model.Check07.", "c07case", "run07", shards);
+        }
+        "c18" => {
+            let o = c18::generate(seed, scale);
+            o.write(&out, "c18", "From MLV Require Import model.Bytes model.PutQuery model.Check08 model.Modes model.Check18.", "c18case", "run18", shards);
         }
         "c09" => {
             let o = c09::generate(seed, scale);
